@@ -8,14 +8,23 @@ interp   emg3d.maps.interpolate(method='volume', log in {False, True}) against
          discretize operator, (c) conservation of the integral on same-region
          pairs, (d) range preservation, (e) identity on equal grids, (f) the
          pointwise nearest-value rule for output cells that lie in a single
-         (extended) source cell, (g) interp_volume_average.py_func.
+         (extended) source cell, (g) interp_volume_average.py_func; values
+         as float64 F/C/strided/negative-stride arrays or float32;
+         extrapolate=False must change nothing; 1/interp(1/v) == interp(v)
+         in log mode.
 adjoint  emg3d.maps._interp_volume_average_adj is added in place, component by
          component, and is the exact transpose of what interpolate() applies:
-         <P x, y> = <x, P^T y> for random and unit vectors.
+         <P x, y> = <x, P^T y> for random and unit vectors; optionally two
+         calls with different `ngrid` onto one `oval` (sum), C-ordered arrays.
 model    Model.interpolate_to_grid: equal grid -> the model itself; otherwise
          a new model on the new grid whose conductivities are the log-mode
          average, the same for all six mappings (Resistivity vs Conductivity
-         in particular); mu_r / epsilon_r stay within their input range.
+         in particular); mu_r / epsilon_r are averaged in the same mode
+         (reference + single-cell rule + range); keyword overrides (log,
+         extrapolate, method); Model / mesh provenance (copy, from_dict,
+         pickle, numbers); one Model object used again after its values
+         changed, for a second target, chained g1->g2->g1; two Models onto
+         one target mesh object.
 weights  _volume_average_weights compiled vs .py_func vs reference 1D matrix.
 """
 import numpy as np
@@ -28,16 +37,27 @@ RULE = ("Grid pairs are built by construction, per direction one of the "
         "relations ident / same (same interval, other partition) / refine "
         "(target nodes contain the source nodes) / coarsen / inside (target "
         "interval within the source) / outside (target encloses the source) "
-        "/ shift (partial overlap) / disjoint, 1..12 cells per direction; "
-        "node arithmetic either an exact dyadic integer lattice (coinciding "
-        "nodes coincide bit for bit) or arbitrary floats with offsets up to "
-        "1000 domain lengths; values log-uniform within [1e-4, 1e4] "
-        "(homogeneous, blocks, layered, noise, single spike), a drawn number "
-        "of decades up to 8; linear and log10 mode; six mappings and four "
-        "anisotropy cases for Model.interpolate_to_grid.  Non-trivial = the "
-        "grids are not identical, the values span > 0.5 decades and are not "
-        "homogeneous, and at least one output cell overlaps two or more "
-        "source cells; distinct by (relations, cell counts, seeds).")
+        "/ shift (partial overlap) / translate / translate_same (same widths, "
+        "other origin) / disjoint, 1..12 cells per direction, or 100..300 "
+        "cells in one direction and <= 2 in the others; node arithmetic "
+        "either an exact dyadic integer lattice (coinciding nodes coincide "
+        "bit for bit) or arbitrary floats with offsets up to 1000 domain "
+        "lengths, widths random / stretched / uniform / uniform core with "
+        "boundary cells 10..1e4 times wider; values log-uniform within "
+        "[1e-4, 1e4] or ('wide') [1e-14, 1e14] (homogeneous, blocks, layered, "
+        "noise, single spike, air layer 1e-14..1e-8 on top), a drawn number "
+        "of decades up to 8; float64 F / C / strided / negative-stride "
+        "arrays and float32; linear and log10 mode, extrapolate=False; six "
+        "mappings and four anisotropy cases for Model.interpolate_to_grid, "
+        "with keyword overrides (log, extrapolate, method), Models that are "
+        "new / copy() / from_dict / unpickled / built from numbers, target "
+        "meshes that are new / copy() / from_dict, structured mu_r and "
+        "epsilon_r, and sequences on one object (edit and interpolate again; "
+        "second target; second source on one target mesh; g1->g2->g1).  "
+        "Non-trivial = the grids are not identical, the values span > 0.5 "
+        "decades and are not homogeneous, and at least one output cell "
+        "overlaps two or more source cells; distinct by (relations, cell "
+        "counts, seeds).")
 ASSUMPTIONS = [
     "checker-side reference: out[o] = sum_i |o ∩ ext(i)| v[i] / |o| per "
     "direction (tensor product), ext(i) = source cell i, the first/last one "
@@ -46,8 +66,29 @@ ASSUMPTIONS = [
     "emg3d uses for gradients (third party, trusted only as the named peer)",
     "tolerance 1e4*eps*kappa relative to the sum of absolute terms, kappa = 1 "
     "on the exact lattice and 1 + sum_d max|node_d|/min h_d for float grids "
-    "(rounding of the node coordinates themselves)",
+    "(rounding of the node coordinates themselves); float32 values: plus "
+    "(prod(n_d + 2) + 16)*eps32 (one rounding per accumulated term); float "
+    "grids: nodes coinciding by construction may differ by 4 eps |node| (in "
+    "proportion more beyond 12+12 cells), the induced change enters the "
+    "tolerance",
     "emg3d.TensorMesh node coordinates are origin + cumsum(h)",
+    "Model.interpolate_to_grid passes mu_r and epsilon_r through the same "
+    "interpolate call as the properties (models.py: one loop, one option "
+    "dict): they are averaged in the mode given by `log` (default: log10 "
+    "for the three non-log mappings, linear for the Lg/Ln mappings); "
+    "documented: keyword arguments are passed through, 'volume' ignores "
+    "`extrapolate`, log mode gives the same for resistivity and conductivity",
+    "log=True is not combined with the Lg/Ln mappings (log10 of negative "
+    "property values); with log=False the comparison between mappings is "
+    "restricted to the mappings that still average log(conductivity)",
+    "grids equal by emg3d's tolerance-based __eq__ but not bit-equal: either "
+    "the model itself or a model satisfying all oracles is accepted",
+    "results of interpolation are a function of (values, source grid, target "
+    "grid): sequences on one Model / mesh object are compared with new "
+    "objects at rtol 1e-12",
+    "discretize.TensorMesh targets, Model sums and int64 values are not "
+    "generated (not documented for interpolate_to_grid / out of the "
+    "property's domain)",
 ]
 SHARDS = {'quick': 1, 'thorough': 16}
 
@@ -489,7 +530,8 @@ def ref_matrices_pert(info):
     out = []
     for d in range(3):
         a, b, h2 = info['n1'][d], info['n2'][d], info['h2'][d]
-        delta = 4*np.finfo(float).eps*max(np.abs(a).max(), np.abs(b).max())
+        delta = _node_ulps(a, b)*np.finfo(float).eps*max(np.abs(a).max(),
+                                                         np.abs(b).max())
         lo_s = a[:-1].astype(float).copy()
         hi_s = a[1:].astype(float).copy()
         lo_s[0] = -np.inf
@@ -498,6 +540,15 @@ def ref_matrices_pert(info):
             (hi_s[None, :] >= b[:-1, None] - delta)
         out.append(ref_w1d(a, b)/h2[:, None] + touch*(2*delta/h2[:, None]))
     return out
+
+
+def _node_ulps(a, b):
+    """Allowed deviation, in units of eps*max|node|, between nodes of two
+    grids that coincide by construction: the nodes are origin + cumsum(h),
+    one rounding per cell.  4 up to 12+12 cells (as found adequate), growing
+    in proportion for the 100..300-cell directions (worst case (n1+n2)/2,
+    standard deviation 0.3*sqrt(n1+n2))."""
+    return 4.0*max(1.0, (len(a) + len(b) - 2)/24.0)
 
 
 def pert_scale(W, Wp, absq, transpose=False):
@@ -638,7 +689,9 @@ def case_interp(spec, rec):
     if f4:
         # single precision input (accepted: the output is allocated with the
         # dtype of the values); the checker works with the rounded values
-        v = v.astype(np.float32)
+        # (F-ordered only: every dtype x layout is one more compilation)
+        v = np.asfortranarray(v.astype(np.float32))
+        layout = None
     v = _layout(v, layout)
     vpass = v                      # what emg3d gets
     vin = v.copy()
@@ -646,8 +699,10 @@ def case_interp(spec, rec):
     tolk = C_EPS*info['kappa']
     if f4:
         # accumulation in single precision: one rounding per added term
-        # (bound: number of source cells) plus log10 / 10** / storage
-        tolk = tolk + (g1.n_cells + 16)*float(np.finfo(np.float32).eps)
+        # (bound: pieces of the merged node set within one target cell, at
+        # most n+2 per direction) plus log10 / 10** / storage
+        nterm = int(np.prod([n + 2 for n in g1.shape_cells]))
+        tolk = tolk + (nterm + 16)*float(np.finfo(np.float32).eps)
     W = ref_matrices(info)
     Wp = ref_matrices_pert(info)
     P = discretize.utils.volume_average(g1, g2)
@@ -779,14 +834,16 @@ def case_interp(spec, rec):
 
     # (g) Python source of the kernel vs compiled ----------------------------
     # (a share of the cases fixed by the drawn seed; pure Python is slow)
-    if ps['seed'] % 8 == 0 or g1.n_cells + g2.n_cells < 30:
+    pyf = getattr(maps.interp_volume_average, 'py_func', None)
+    if pyf is not None and (ps['seed'] % 8 == 0 or
+                            g1.n_cells + g2.n_cells < 30):
         rec.cls('pyfunc')
         a = np.zeros(g2.shape_cells, order='F')
         b = np.zeros(g2.shape_cells, order='F')
         args = (g1.nodes_x, g1.nodes_y, g1.nodes_z, np.asfortranarray(v),
                 g2.nodes_x, g2.nodes_y, g2.nodes_z)
         maps.interp_volume_average(*args, a, vol2.copy(order='F'))
-        maps.interp_volume_average.py_func(*args, b, vol2.copy(order='F'))
+        pyf(*args, b, vol2.copy(order='F'))
         ref = ref_apply(W, v)
         lim = tolk*ref + pert_scale(W, Wp, v)
         if np.any(np.abs(a-b) > lim):
@@ -804,7 +861,7 @@ def case_interp(spec, rec):
             'decades=' + ('<1' if vs['decades'] < 1 else
                           '<4' if vs['decades'] < 4 else
                           '<8' if vs['decades'] < 8 else '8'),
-            f"layout={layout or ('C' if spec['corder'] else 'F')}",
+            f"layout={layout or ('C' if spec['corder'] and not f4 else 'F')}",
             f"dtype={'f4' if f4 else 'f8'}", f"wide={vs.get('wide', False)}",
             f"extrapolate_false={spec.get('extrapolate', False)}",
             f"reciprocal={spec.get('reciprocal', False)}",
@@ -953,8 +1010,8 @@ def case_adjoint(spec, rec):
         pij_a = o[c].ravel('F')[j]
         io = np.unravel_index(i, s2, order='F')
         sliver = 0.0 if info['lattice'] else sum(
-            8*np.finfo(float).eps*max(np.abs(info['n1'][d]).max(),
-                                      np.abs(info['n2'][d]).max()) /
+            2*_node_ulps(info['n1'][d], info['n2'][d])*np.finfo(float).eps *
+            max(np.abs(info['n1'][d]).max(), np.abs(info['n2'][d]).max()) /
             info['h2'][d][io[d]] for d in range(3))
         if abs(pij_f - pij_a) > tolk*cmax + sliver:
             raise Violation(
@@ -1164,11 +1221,17 @@ def case_model(spec, rec):
                 raise Violation("mesh_copy_differs",
                                 f"TensorMesh {gprov}: nodes differ")
 
-    emg_equal = bool(g1 == g2)
-    # not exactly equal, but equal by emg3d's tolerance-based __eq__: the
-    # property says nothing about which of the two answers is given - the
-    # model itself, or a model that satisfies everything below
-    near_equal = emg_equal and not info['identical']
+    # not exactly equal, but equal within the tolerance of TensorMesh.__eq__
+    # (widths and origin to 1e-5 relative; evaluated here with 2e-5, not by
+    # emg3d):
+    # the property says nothing about which of the two answers is given -
+    # the model itself, or a model that satisfies everything below
+    near_equal = not info['identical'] and \
+        tuple(g1.shape_cells) == tuple(g2.shape_cells) and all(
+            np.allclose(info['h1'][d], info['h2'][d], rtol=2e-5, atol=0)
+            for d in range(3)) and np.allclose(
+                np.asarray(g1.origin, float), np.asarray(g2.origin, float),
+                rtol=2e-5, atol=0)
 
     results = {}
     logcond = {}
@@ -1533,6 +1596,10 @@ SUBS = {'interp': case_interp, 'adjoint': case_adjoint, 'model': case_model,
 
 
 def run(ctx):
+    import discretize
+    # (the operator of oracle (b) and of the adjoint comparison is third
+    # party code: a mismatch after an upgrade of discretize points there)
+    ctx.notes['discretize_version'] = str(discretize.__version__)
     ctx.regression(SUBS)
     # general pairs, then a guaranteed share of the same-region kinds (the
     # only ones for which conservation / identity are defined)
@@ -1542,6 +1609,6 @@ def run(ctx):
                 case_interp, ctx.n(600, 2500), salt=1)
     ctx.explore('adjoint', adjoint_strategy(), case_adjoint,
                 ctx.n(700, 3000))
-    ctx.explore('model', model_strategy(), case_model, ctx.n(400, 2000))
+    ctx.explore('model', model_strategy(), case_model, ctx.n(700, 3000))
     ctx.explore('weights', weights_strategy(), case_weights,
                 ctx.n(1500, 6000))
